@@ -131,6 +131,8 @@ def gen_plan(seed, tier="quick"):
         # source is not demanded; independence from the worker count and the schedule still is (same chunk size)
         "preprocess": "default" if r.random() < 0.2 else "none",
         "spike_dtype": r.choice(["int64", "int64", "uint64", "int32", "uint32"]),     # spike sorters save unsigned times
+        "cluster_dtype": r.choice(["int64", "int64", "int32", "int32", "int16"]),     # ... and narrow integer cluster labels
+        "n_jobs_minus_one": r.random() < 0.06,                                        # n_jobs=-1: joblib's "all CPUs"
         "prelude_same_outdir": r.random() < 0.4,
         "explicit_h": r.random() < 0.3,
         "reader_sort_false": r.random() < 0.2,
@@ -213,9 +215,10 @@ def _extract(plan, src, outdir, chunk, n_jobs, schedule, scratch):
     try:
         sdt = np.dtype(plan.get("spike_dtype", "int64"))
         cl = sp[:, 1] if (sdt.kind == "i" or sp[:, 1].min(initial=0) >= 0) else sp[:, 1] - sp[:, 1].min()
-        wfx.extract_wfs_cbin(src, outdir, sp[:, 0].astype(sdt), sp[:, 1], sp[:, 2].astype(np.int32 if sdt.itemsize == 4 else np.int64),
+        cdt = np.dtype(plan.get("cluster_dtype", "int64"))
+        wfx.extract_wfs_cbin(src, outdir, sp[:, 0].astype(sdt), sp[:, 1].astype(cdt), sp[:, 2].astype(np.int32 if sdt.itemsize == 4 else np.int64),
                              max_wf=plan["max_wf"], chunksize_samples=chunk,
-                             n_jobs=n_jobs, preprocess_steps=(None if plan.get("preprocess") == "default" else []),
+                             n_jobs=(-1 if (plan.get("n_jobs_minus_one") and n_jobs > 1) else n_jobs), preprocess_steps=(None if plan.get("preprocess") == "default" else []),
                              seed=plan["wf_seed"], scratch_dir=scratch, **kw)
     except Exception as e:
         import traceback
